@@ -4,10 +4,9 @@ import (
 	"encoding/csv"
 	"fmt"
 	"io"
+	"math"
 	"strconv"
 	"time"
-
-	"github.com/valyala/fastjson/fastfloat"
 
 	. "github.com/cube2222/octosql/execution"
 	"github.com/cube2222/octosql/execution/files"
@@ -69,7 +68,7 @@ func (d *DatasourceExecuting) Run(ctx ExecutionContext, produce ProduceFn, metaS
 			}
 
 			if octosql.Int.Is(d.fields[i].Type) == octosql.TypeRelationIs {
-				integer, err := fastfloat.ParseInt64(str)
+				integer, err := strconv.ParseInt(str, 10, 64)
 				if err == nil {
 					values[i] = octosql.NewInt(integer)
 					continue
@@ -77,8 +76,8 @@ func (d *DatasourceExecuting) Run(ctx ExecutionContext, produce ProduceFn, metaS
 			}
 
 			if octosql.Float.Is(d.fields[i].Type) == octosql.TypeRelationIs {
-				float, err := fastfloat.Parse(str)
-				if err == nil {
+				float, err := strconv.ParseFloat(str, 64)
+				if err == nil || math.IsInf(float, 0) {
 					values[i] = octosql.NewFloat(float)
 					continue
 				}
